@@ -295,6 +295,14 @@ class Check:
         if not ok:
             self.proof_ok = False
             self.proof_log += out[-4000:]
+        # Properties.v is re-compiled on every run (below), but what IT imports - possibly files of another theory
+        # directory that nothing else here imports (C02/C03 state their theorems on the C01 model) - must exist
+        pdeps = _coqdep().get(os.path.normpath(os.path.relpath(os.path.join(tdir, "Properties.v"), COQ)), [])
+        if pdeps:
+            ok, out = build_vo([os.path.join(COQ, d) for d in pdeps])
+            if not ok:
+                self.proof_ok = False
+                self.proof_log += out[-4000:]
         for g in extra_gen:
             rc, out = sh(["timeout", "900", "coqc", "-Q", "theories", "QV", "-Q", "gen", "QVgen", g],
                          cwd=COQ, timeout=1000, env=self.coq_env())
